@@ -4,6 +4,9 @@ Case kinds
   "adapter": a TensorFrame written out cell by cell (any subset of categorical /
       numerical / embedding, plus ignored stypes, missing cells as -1 / NaN, with or
       without y, unique-id payloads); the three _to_*_input conversions are run.
+  "history": several frames of different stype layouts converted in one process, through long-lived
+      and fresh adapter objects of the three libraries, interleaved; every call is judged against the
+      per-frame definition and earlier return values are read again at the end (no aliasing).
   "metric":  compute_metric for RMSE / MAE / accuracy on written-out vectors.
   "pair":    GBDT(task_type, metric=...) for one (task, metric | None) pair.
   "guard":   a sequence of tune / failing tune / predict / save / load on a stub subclass.
@@ -29,7 +32,8 @@ MODEL_TARGETS = ["Model/Gbdt.vo"]
 SHARD = 150
 RULE = ("TensorFrames with every subset of {categorical, numerical, embedding} x ignored stypes x key order x "
         "0-4 rows x 1-3 columns x missing patterns x with/without y, unique-id payloads, through the three "
-        "adapters; compute_metric on dyadic vectors (binary scores at and around 0.5); all (task, metric) "
+        "adapters; histories of 3-8 adapter calls on 2-4 frames of different layouts through shared and fresh adapter "
+        "objects; compute_metric on dyadic vectors (binary scores at and around 0.5); all (task, metric) "
         "pairs; all guard sequences up to length 3 plus random longer ones.  distinct = distinct (kind, "
         "present stypes, shape, missing pattern class, y, ignored set, key order | metric, n, hits-0.5 | pair "
         "| op sequence); non-trivial = adapter case with >= 1 row or an expected rejection, metric case, "
@@ -113,6 +117,40 @@ def gen_adapter(rng, tier, subset=None):
     return case
 
 
+def _layout(f):
+    return (ref_width(f), [k for k in ("cat", "num", "emb") if f[k]])
+
+
+def gen_history(rng, tier, main=None):
+    """2-4 frames of DIFFERENT stype layouts, converted in one process by long-lived ("shared") and fresh
+    adapter objects of the three libraries, interleaved."""
+    nf = rng.randint(2, 4)
+    frames = []
+    for _try in range(40):
+        f = gen_adapter(rng, tier)
+        if not (f["cat"] or f["num"] or f["emb"]) and rng.chance(0.8):
+            continue
+        if all(_layout(f) != _layout(g) for g in frames):
+            frames.append(f)
+        if len(frames) == nf:
+            break
+    # the categorical layout must vary: one frame without, one with categorical columns, where possible
+    if len(frames) >= 2 and rng.chance(0.7):
+        if all(f["cat"] for f in frames):
+            frames[-1] = gen_adapter(rng, tier, rng.pick([["numerical"], ["embedding"], ["numerical", "embedding"]]))
+        elif not any(f["cat"] for f in frames):
+            frames[0] = gen_adapter(rng, tier, ["categorical"] + rng.pick([[], ["numerical"], ["embedding"]]))
+    main = main or rng.pick(list(LIBS))
+    order = list(range(len(frames)))
+    rng.shuffle(order)
+    steps = [{"frame": i, "lib": main, "obj": "shared"} for i in order]      # one object sees every layout
+    for _ in range(rng.randint(1, 4)):
+        steps.insert(rng.randint(0, len(steps)),
+                     {"frame": rng.randrange(len(frames)), "lib": rng.pick(list(LIBS)),
+                      "obj": rng.pick(["shared", "shared", "fresh"])})
+    return {"kind": "history", "frames": frames, "steps": steps}
+
+
 def _dy(rng, lo=-80, hi=80, den=8):
     return [rng.randint(lo, hi), den]
 
@@ -150,6 +188,9 @@ def generate(rng, tier):
             for _ in range(3):
                 cases.append(gen_adapter(rng, tier, list(sub)))
     cases += [gen_adapter(rng, tier) for _ in range(na)]
+    for lib in LIBS:                                 # histories: every library as the long-lived object
+        cases += [gen_history(rng, tier, main=lib) for _ in range(4)]
+    cases += [gen_history(rng, tier) for _ in range(na // 5)]
     cases += [gen_metric(rng, tier) for _ in range(nm)]
     for t in TASKS:                                  # all (task, metric) pairs: finite, exhaustive
         for m in [None] + METRICS:
@@ -238,34 +279,77 @@ def _yobs(y):
     return None if y is None else [_fr(v) for v in np.asarray(y).tolist()]
 
 
-def run_adapter(case):
+LIBS = {"xgb": ("XGBoost", "_to_xgboost_input"), "cat": ("CatBoost", "_to_catboost_input"),
+        "lgbm": ("LightGBM", "_to_lightgbm_input")}
+
+
+def new_adapter(lib):
     from torch_frame import TaskType
-    from torch_frame.gbdt import CatBoost, LightGBM, XGBoost
+    import torch_frame.gbdt as G
+    return getattr(G, LIBS[lib][0])(TaskType.REGRESSION)
+
+
+def read_out(lib, raw):
+    """observation of what an adapter returned (read again later to detect aliasing between calls)"""
+    if lib == "xgb":
+        feat, y, types = raw
+        return {"ok": True, "feat": _mat(feat), "y": _yobs(y), "types": list(types)}
+    df, y, cf = raw
+    cols = [int(c) for c in df.columns.tolist()]
+    rows = [[_fr(df.iloc[i, j]) for j in range(df.shape[1])] for i in range(df.shape[0])]
+    return {"ok": True, "columns": cols, "shape": list(df.shape), "rows": rows,
+            "index": [int(i) if isinstance(i, (int, np.integer)) else str(i) for i in df.index.tolist()],
+            "y": _yobs(y), "cat_features": [int(v) for v in np.asarray(cf).tolist()],
+            "dtypes": [str(t) for t in df.dtypes.tolist()]}
+
+
+def call_adapter(obj, lib, tf):
+    """-> (observation, raw return value or None)"""
+    try:
+        raw = getattr(obj, LIBS[lib][1])(tf)
+        return read_out(lib, raw), raw
+    except Exception as ex:
+        return {"ok": False, "exc": C.exc_name(ex)}, None
+
+
+def emb_readback(case, tf):
+    from torch_frame import stype
+    e = tf.feat_dict[stype.embedding]
+    cells = [[[_fr(v) for v in e[i, j].reshape(-1).tolist()] for j in range(e.num_cols)]
+             for i in range(e.num_rows)]
+    return cells == case["emb"]["rows"]
+
+
+def run_adapter(case):
     tf = build_tf(case)
     out = {}
     if case["emb"]:
-        from torch_frame import stype
-        e = tf.feat_dict[stype.embedding]
-        cells = [[[_fr(v) for v in e[i, j].reshape(-1).tolist()] for j in range(e.num_cols)]
-                 for i in range(e.num_rows)]
-        out["emb_cells_readback"] = cells == case["emb"]["rows"]
-    try:
-        feat, y, types = XGBoost(TaskType.REGRESSION)._to_xgboost_input(tf)
-        out["xgb"] = {"ok": True, "feat": _mat(feat), "y": _yobs(y), "types": list(types)}
-    except Exception as ex:
-        out["xgb"] = {"ok": False, "exc": C.exc_name(ex)}
-    for key, cls, meth in (("cat", CatBoost, "_to_catboost_input"), ("lgbm", LightGBM, "_to_lightgbm_input")):
-        try:
-            df, y, cf = getattr(cls(TaskType.REGRESSION), meth)(tf)
-            cols = [int(c) for c in df.columns.tolist()]
-            rows = [[_fr(df.iloc[i, j]) for j in range(df.shape[1])] for i in range(df.shape[0])]
-            out[key] = {"ok": True, "columns": cols, "shape": list(df.shape), "rows": rows,
-                        "index": [int(i) if isinstance(i, (int, np.integer)) else str(i) for i in df.index.tolist()],
-                        "y": _yobs(y), "cat_features": [int(v) for v in np.asarray(cf).tolist()],
-                        "dtypes": [str(t) for t in df.dtypes.tolist()]}
-        except Exception as ex:
-            out[key] = {"ok": False, "exc": C.exc_name(ex)}
+        out["emb_cells_readback"] = emb_readback(case, tf)
+    for lib in LIBS:
+        out[lib], _ = call_adapter(new_adapter(lib), lib, tf)
     return out
+
+
+def run_history(case):
+    """several frames of different layouts converted in ONE process: through one long-lived adapter object per
+    library ("shared") and through fresh objects, interleaved; earlier return values are read again at the end."""
+    tfs = [build_tf(f) for f in case["frames"]]
+    shared = {}
+    steps, raws = [], []
+    for st in case["steps"]:
+        lib = st["lib"]
+        if st["obj"] == "shared":
+            obj = shared.setdefault(lib, new_adapter(lib))
+        else:
+            obj = new_adapter(lib)
+        o, raw = call_adapter(obj, lib, tfs[st["frame"]])
+        steps.append(o)
+        raws.append(raw)
+    later = []
+    for st, o, raw in zip(case["steps"], steps, raws):
+        later.append(True if raw is None else read_out(st["lib"], raw) == o)
+    rb = [emb_readback(f, tf) if f["emb"] else True for f, tf in zip(case["frames"], tfs)]
+    return {"steps": steps, "unchanged_later": later, "emb_cells_readback": all(rb)}
 
 
 class _Model:
@@ -307,6 +391,8 @@ def run(case):
     kind = case["kind"]
     if kind == "adapter":
         return run_adapter(case)
+    if kind == "history":
+        return run_history(case)
     Stub = _stub_class()
     if kind == "pair":
         t = _enum(TaskType, case["task"])
@@ -405,17 +491,25 @@ def _obs_rows(rows):
 def oracle_adapter(case, obs):
     if obs.get("emb_cells_readback") is False:
         return dict(key="harness-emb-readback", what="embedding cells read back differ from the cells written")
+    for lib in ("xgb", "cat", "lgbm"):
+        f = judge_lib(case, lib, obs[lib])
+        if f:
+            return f
+    return None
+
+
+def judge_lib(case, lib, o):
+    """one adapter call against the per-frame definition (feature matrix, target, types / cat indices)"""
     wc, wn, we = ref_width(case)
     empty = not (case["cat"] or case["num"] or case["emb"])
     expy = None if case["y"] is None else [F(v) for v in case["y"]["v"]]
-    for lib in ("xgb", "cat", "lgbm"):
-        o = obs[lib]
+    for _once in (0,):
         if empty:
             if o["ok"]:
                 return dict(key=f"adapter:{lib}:accepts-empty",
                             what=f"{lib} adapter accepted a frame without categorical/numerical/embedding columns",
                             observed=o)
-            continue
+            return None
         if not o["ok"]:
             return dict(key=f"adapter:{lib}:raised", what=f"{lib} adapter raised {o['exc']} on a valid frame", observed=o)
         exp = ref_matrix(case, lib)
@@ -456,6 +550,30 @@ def oracle_adapter(case, obs):
     return None
 
 
+def oracle_history(case, obs):
+    if obs.get("emb_cells_readback") is False:
+        return dict(key="harness-emb-readback", what="embedding cells read back differ from the cells written")
+    calls = {}
+    for k, (st, o) in enumerate(zip(case["steps"], obs["steps"])):
+        lib = st["lib"]
+        tag = st["obj"]
+        before = calls.get((lib, tag), 0) if tag == "shared" else 0
+        f = judge_lib(case["frames"][st["frame"]], lib, o)
+        if f:
+            sub = f["key"].split(":", 2)[2] if f["key"].count(":") >= 2 else f["key"]
+            f["key"] = f"history:{lib}:{sub}"
+            f["what"] = (f"step {k} ({lib}, {tag} object, {before} earlier call(s) on it, frame {st['frame']}): "
+                         + f["what"])
+            f["step"] = k
+            return f
+        calls[(lib, tag)] = before + 1
+    for k, (st, ok) in enumerate(zip(case["steps"], obs["unchanged_later"])):
+        if not ok:
+            return dict(key=f"history:{st['lib']}:aliasing",
+                        what=f"the value returned by step {k} ({st['lib']}) changed after later adapter calls", step=k)
+    return None
+
+
 def ref_metric(case):
     mk = case["metric"]
     n = len(case["target"])
@@ -476,6 +594,8 @@ def oracle(case, obs):
     kind = case["kind"]
     if kind == "adapter":
         return oracle_adapter(case, obs)
+    if kind == "history":
+        return oracle_history(case, obs)
     if kind == "pair":
         t, m = case["task"], case["metric"]
         if m is None:
@@ -535,6 +655,22 @@ def oracle(case, obs):
 
 def shrink(case):
     kind = case["kind"]
+    if kind == "history":
+        steps = case["steps"]
+        for k in range(len(steps)):
+            yield dict(case, steps=steps[:k] + steps[k + 1:])
+        used = sorted({st["frame"] for st in steps})
+        if len(used) < len(case["frames"]):
+            yield dict(case, frames=[case["frames"][i] for i in used],
+                       steps=[dict(st, frame=used.index(st["frame"])) for st in steps])
+        for k, st in enumerate(steps):
+            if st["obj"] == "shared":
+                yield dict(case, steps=steps[:k] + [dict(st, obj="fresh")] + steps[k + 1:])
+        for i, f in enumerate(case["frames"]):
+            for g in shrink(f):
+                if g.get("kind") == "adapter":
+                    yield dict(case, frames=case["frames"][:i] + [g] + case["frames"][i + 1:])
+        return
     if kind == "guard":
         ops = case["ops"]
         for k in range(len(ops)):
@@ -585,6 +721,9 @@ def nontrivial_sig(case, obs):
         has_nan = bool(case["num"]) and any(None in r for r in case["num"]["rows"])
         return json.dumps(["adapter", present, case["n"], ref_width(case), has_m1, has_nan,
                            None if case["y"] is None else case["y"]["dtype"], case["ignored"], case["order"]])
+    if kind == "history":
+        return json.dumps(["history", [_layout(f) for f in case["frames"]],
+                           [(st["frame"], st["lib"], st["obj"]) for st in case["steps"]]])
     if kind == "metric":
         hits = case["metric"] == "acc_bin" and any(Fraction(*p) == Fraction(1, 2) for p in case["pred"])
         return json.dumps(["metric", case["metric"], len(case["target"]), hits, obs.get("score")])
@@ -615,6 +754,22 @@ def stats(cases, obss):
             d["with_nan"] += bool(c["num"]) and any(None in r for r in c["num"]["rows"])
             d["rejected_empty"] += not o["xgb"]["ok"]
             d["zero_rows_with_embedding"] = d.get("zero_rows_with_embedding", 0) + (c["n"] == 0 and bool(c["emb"]))
+        elif k == "history":
+            h = d.setdefault("history", {"steps": 0, "shared_steps": 0, "fresh_steps": 0, "libs_as_long_lived": {},
+                                         "shared_object_sees_cat_layout_change": 0, "with_frame_without_cat": 0})
+            h["steps"] += len(c["steps"])
+            seen = {}
+            changed = False
+            for st in c["steps"]:
+                h["shared_steps" if st["obj"] == "shared" else "fresh_steps"] += 1
+                if st["obj"] == "shared":
+                    wc = ref_width(c["frames"][st["frame"]])[0]
+                    if st["lib"] in seen and seen[st["lib"]] != wc:
+                        changed = True
+                        h["libs_as_long_lived"][st["lib"]] = h["libs_as_long_lived"].get(st["lib"], 0) + 1
+                    seen.setdefault(st["lib"], wc)
+            h["shared_object_sees_cat_layout_change"] += changed
+            h["with_frame_without_cat"] += any(not f["cat"] for f in c["frames"])
         elif k == "metric":
             d["metric_kinds"][c["metric"]] = d["metric_kinds"].get(c["metric"], 0) + 1
             d["binary_with_exact_half"] += c["metric"] == "acc_bin" and any(Fraction(*p) == Fraction(1, 2) for p in c["pred"])
@@ -647,6 +802,15 @@ def sanity(cases, obss):
         probs.append("too many rejected (empty) frames")
     if d["with_y"] == na:
         probs.append("no frame without y")
+    h = d.get("history")
+    if not h or h["fresh_steps"] == 0 or h["shared_steps"] == 0:
+        probs.append("no multi-frame histories (shared and fresh adapter objects)")
+    else:
+        for lib in LIBS:
+            if h["libs_as_long_lived"].get(lib, 0) == 0:
+                probs.append(f"no history in which one {lib} object converts frames with different categorical widths")
+        if h["with_frame_without_cat"] == 0:
+            probs.append("no history with a frame without categorical columns")
     for m in ("rmse", "mae", "acc_bin", "acc_multi"):
         if d["metric_kinds"].get(m, 0) == 0:
             probs.append(f"metric {m} never drawn")
@@ -703,33 +867,40 @@ def coq_oy(y):
     return "None" if y is None else "(Some " + C.clist(y, cval) + ")"
 
 
+def coq_lib_term(lib, o):
+    """model of one adapter on `tf` (bound by the caller) against one observed call"""
+    if lib == "xgb":
+        if o["ok"]:
+            if o["feat"]["rows"] is None or any(t not in ("c", "q") for t in o["types"]):
+                return "false"
+            types = C.clist(o["types"], lambda t: {"c": "FC", "q": "FQ"}[t])
+            ox = f"(Some ({coq_block(o['feat']['rows'])}, {coq_oy(o['y'])}, {types}))"
+        else:
+            ox = "None"
+        return f"xgb_eqb (to_xgboost_input tf) {ox}"
+    fn = "to_catboost_input" if lib == "cat" else "to_lightgbm_input"
+    if o["ok"]:
+        if any(c < 0 for c in o["columns"] + o["cat_features"]):
+            return "false"
+        oo = (f"(Some ({C.clist(o['columns'], cnat)}, {coq_block(o['rows'])}, {coq_oy(o['y'])}, "
+              f"{C.clist(o['cat_features'], cnat)}))")
+    else:
+        oo = "None"
+    return f"df_eqb ({fn} tf) {oo}"
+
+
 def coq_term(case, obs):
     if obs is None or "harness_exc" in obs:
         return None
     kind = case["kind"]
     if kind == "adapter":
-        x = obs["xgb"]
-        if x["ok"]:
-            if x["feat"]["rows"] is None:
-                return "false"
-            types = C.clist(x["types"], lambda t: {"c": "FC", "q": "FQ"}.get(t, "FQ"))
-            if any(t not in ("c", "q") for t in x["types"]):
-                return "false"
-            ox = f"(Some ({coq_block(x['feat']['rows'])}, {coq_oy(x['y'])}, {types}))"
-        else:
-            ox = "None"
-        terms = [f"xgb_eqb (to_xgboost_input tf) {ox}"]
-        for key, fn in (("cat", "to_catboost_input"), ("lgbm", "to_lightgbm_input")):
-            o = obs[key]
-            if o["ok"]:
-                if any(c < 0 for c in o["columns"] + o["cat_features"]):
-                    return "false"
-                oo = (f"(Some ({C.clist(o['columns'], cnat)}, {coq_block(o['rows'])}, {coq_oy(o['y'])}, "
-                      f"{C.clist(o['cat_features'], cnat)}))")
-            else:
-                oo = "None"
-            terms.append(f"df_eqb ({fn} tf) {oo}")
-        return f"(let tf := {coq_tf(case)} in " + " && ".join(terms) + ")"
+        return f"(let tf := {coq_tf(case)} in " + " && ".join(coq_lib_term(lib, obs[lib]) for lib in LIBS) + ")"
+    if kind == "history":
+        # every call of the history against the (stateless) model of its adapter on its own frame
+        terms = [f"(let tf := {coq_tf(case['frames'][st['frame']])} in {coq_lib_term(st['lib'], o)})"
+                 for st, o in zip(case["steps"], obs["steps"])]
+        terms.append(C.cbool(all(obs["unchanged_later"])))
+        return "(" + " && ".join(terms) + ")"
     if kind == "pair":
         m = "None" if case["metric"] is None else f"(Some met_{case['metric'].upper()})"
         o = f"(Some met_{obs['metric'].upper()})" if obs["ok"] else "None"
